@@ -94,6 +94,24 @@ def params_args_family():
         yield ann + "\n"
 
 
+def assign_family():
+    """Every assignment operator x every target shape (legal and illegal), alone and in a def."""
+    targets = ["a", "a, b", "(a, b)", "[a, b]", "a.b", "a[0]", "a[0:1]", "(a)", "((a, b))", "a, (b, c)", "*a", "*a, b", "a()", "1", '"s"',
+               "a + b", "a if b else c", "lambda: a", "[a for a in b]", "-a", "not a", "a.b.c", "a[b][c]", "(a,)", "[a]", "()", "[]", "a, b.c",
+               "a[0], b", "(a, b), c", "[a, (b, c)]", "a, *b", "[*a, b]", "a.b()", "a[0]()", "(a.b)", "(a[0])", "a, 1", "a,",
+               "(a), b", "a and b", "a < b", "a | b", "{a: b}", "{a}"]
+    # (None / True / False are keywords in Python and ordinary predeclared identifiers in Starlark: not targets here)
+    ops = ["=", "+=", "-=", "*=", "/=", "//=", "%=", "&=", "|=", "^=", "<<=", ">>="]
+    for t in targets:
+        for op in ops:
+            yield f"{t} {op} c\n"
+            yield f"def f():\n    {t} {op} c\n"
+        yield f"{t} = c = d\n"
+        yield f"c = {t} = d\n"
+        yield f"for {t} in c: pass\n"
+        yield f"x = [1 for {t} in c]\n"
+
+
 def stmt_family(maxlen, maxindent):
     simple = ["a = 1", "pass", "return a", "break", "continue", "a += 1", "f()", "a, b = c", "a; b", "a;"]
     heads = ["if a:", "elif a:", "else:", "for a in b:", "def f():", "if a: pass", "for a in b: break", "def g(): return 1", "else: pass",
@@ -213,7 +231,7 @@ def run(tier):
     for L in range(1, (4 if q else 6) + 1):
         for f in range(len(SEQ_TOKENS)):
             jobs.append(("seq", f, L))
-    for fam, gen in (("expr", expr_family()), ("params", params_args_family()), ("stmts", stmt_family(3 if q else 4, 2))):
+    for fam, gen in (("expr", expr_family()), ("params", params_args_family()), ("stmts", stmt_family(3 if q else 4, 2)), ("assign", assign_family())):
         for c in chunks(gen, 20000):
             jobs.append(("list:" + fam, c))
     with multiprocessing.Pool(vlib.NPROC) as pool:
